@@ -22,7 +22,7 @@ func init() {
 			"(P06-errpanic) no panic is control-dependent on the error of strconv.Atoi unless the digit group it parses is bounded by its regular expression; (P06-runewidth) a byte offset formed as index + len(string(rune)) is never used to slice the string being ranged over; " +
 			"(P06-shape) mapParse appends one value, one block and one error list per iteration and the parallel merge appends values and blocks pairwise; (P06-linetext = P10-epoch) the line stored in an error is a line of its block. " +
 			"Not covered: implicit panics in general (index/slice bounds, nil dereference, negative Repeat counts, make) beyond the named patterns; termination; resource exhaustion.",
-		rules: []ruleFn{ruleP06Panics, ruleP06RuneWidth, ruleP06Shape, ruleP08LoopExit, ruleP07SliceGuard, ruleP10Epoch},
+		rules: []ruleFn{ruleP06Panics, ruleP06NilRecord, ruleP06PrintWidth, ruleP06RuneWidth, ruleP06Shape, ruleP08LoopExit, ruleP07SliceGuard, ruleP10Epoch},
 		trusted: []string{
 			"type invariants of klog.Date/Time accessors (Year 0..9999, Month 1..12, Day 1..31, Weekday 1..7, Quarter 1..4, Hour 0..23, Minute 0..59), supported by P16-closed",
 			"panics that depend only on clock, flags or configuration are out of the property's scope (file content) and are listed as such",
@@ -784,6 +784,17 @@ var plusDaysExceptions = map[string]string{
 	"klog/service/period.NewWeekFromString":                    "operates on July 1st of the flag's year and at most 53 weeks around it: inside 0000..9999 except for W52/W53 of 9999 (flag value, not file content; recorded under C15)",
 }
 
+func plusDaysReceiver(site ssa.CallInstruction) ssa.Value {
+	cc := site.Common()
+	if cc.IsInvoke() {
+		return cc.Value
+	}
+	if len(cc.Args) > 0 {
+		return cc.Args[0]
+	}
+	return nil
+}
+
 func (c *panicCtx) dischargePlusDays(key string, f *ssa.Function, pn *ssa.Panic) {
 	p, r := c.p, c.r
 	const rule = "P06-partial"
@@ -802,6 +813,18 @@ func (c *panicCtx) dischargePlusDays(key string, f *ssa.Function, pn *ssa.Panic)
 				r.ok(rule, k, p.instrPos(site), "PlusDays(0) is total")
 				continue
 			}
+		}
+		if caller == "klog/app/cli.allDatesRange" {
+			// structural: the step is taken only while the date is strictly before a valid date
+			recv := plusDaysReceiver(site)
+			guarded := false
+			for _, g := range guardsOf(site.Block()) {
+				if n, rv, _, _ := methodCall(g.Cond); n == "IsAfterOrEqual" && !g.Pol && recv != nil && sameValue(rv, recv) {
+					guarded = true
+				}
+			}
+			r.check(guarded, rule, k, p.instrPos(site), "the step forward is taken only while the date is still before the (valid) last date", "allDatesRange steps to the next day before it has checked that the last date is not reached yet: report --fill panics when the last record is dated 9999-12-31")
+			continue
 		}
 		if why, ok := plusDaysExceptions[caller]; ok {
 			r.assume(rule, k, p.instrPos(site), "reasoned exception: %s", why)
